@@ -26,7 +26,7 @@ class FromNpyStack(IO):
     @functools.cached_property
     def _meta(self):
         info = self._info
-        return np.empty((0,) * len(info["chunks"]), dtype=info["dtype"])
+        return np.zeros((0,) * len(info["chunks"]), dtype=info["dtype"])
 
     @functools.cached_property
     def chunks(self):
